@@ -2,7 +2,6 @@ package proxy
 
 import (
 	"context"
-	"math"
 	"slices"
 	"strconv"
 	"strings"
@@ -37,22 +36,33 @@ func NewReplicationStreamObserver(logger loggable) *ReplicationStreamObserver {
 		logger:         logger,
 	}
 }
+
+// maxObservedStreamIndex bounds the bookkeeping array. A stream whose shard id is beyond it is still served, it is
+// just not listed. Without a bound a single stream-open with a huge shard id would allocate gigabytes.
+const maxObservedStreamIndex = 1 << 24
+
 func (s *ReplicationStreamObserver) ReportStreamValue(idx int32, value int32) {
 	if idx < 0 {
 		s.logger.Warn("ReplicationStreamObserver NotifyConnect called with negative streamIndex")
 		return
 	}
+	if idx > maxObservedStreamIndex {
+		s.logger.Warn("ReplicationStreamObserver NotifyConnect called with streamIndex beyond the observable range")
+		return
+	}
 	s.streamGrowLock.Lock()
+	// Never leave the lock held, whatever happens below: every stream open and PrintActiveStreams need it.
+	defer s.streamGrowLock.Unlock()
 	// We want to grow the minimum number of times, so
-	if idx >= int32(len(s.streamActive)) {
+	if int(idx) >= len(s.streamActive) {
 		// Each index will be uniformly random in the range [0, maxStreams). Growing by a percentage of index helps
 		// minimize the amount of reallocation required. Starting with increasing to 125% of idx to keep memory waste low
-		newSize := min(int((idx+1)*9), math.MaxInt32) / 8
+		// (idx is bounded above, so this cannot overflow)
+		newSize := (int(idx) + 1) * 9 / 8
 		// grow and maximize
 		s.streamActive = slices.Grow(s.streamActive, newSize)[:newSize]
 	}
 	s.streamActive[idx].Add(value)
-	s.streamGrowLock.Unlock()
 }
 func (s *ReplicationStreamObserver) PrintActiveStreams() string {
 	sb := strings.Builder{}
